@@ -5,21 +5,31 @@ id=$1; shift
 d=/verif/seeded/$id; w=/tmp/seedrepo_$id
 rm -rf $w; git -C /repo worktree prune; git -C /repo worktree add --detach $w HEAD -q >/dev/null 2>&1
 (cd $w && git apply $d/patch.diff) || { echo "APPLY FAILED $id"; git -C /repo worktree remove --force $w; exit 9; }
+mkdir -p $w/seed_out; cp $d/demo.py $w/seed_out/demo.py 2>/dev/null
+(cd $w/middleware && timeout 300 /venv/bin/python ../seed_out/demo.py > /tmp/demo_$id.out 2>&1); with="exit $? $(grep -o "PROPERTY [A-Z]*" /tmp/demo_$id.out | tail -1)"
+tests=$(cd $w && timeout 1800 /venv/bin/python -m pytest -q -p no:cacheprovider --timeout=900 --continue-on-collection-errors 2>&1 | tail -1)
+(cd $w && git apply -R $d/patch.diff)
+(cd $w/middleware && timeout 300 /venv/bin/python ../seed_out/demo.py > /tmp/demo_$id.out 2>&1); without="exit $? $(grep -o "PROPERTY [A-Z]*" /tmp/demo_$id.out | tail -1)"; rm -f /tmp/demo_$id.out
+(cd $w && git apply $d/patch.diff)
+echo "$id demo with change: $with ; without: $without ; tests with change: $tests"
 cd /verif; mkdir -p .work; res=""
 for P in "$@"; do
   VERIF_REPO=$w timeout 2400 ./check $P > .work/seed_${id}_$P.out 2>&1; rc=$?
   line="check $P: exit $rc, $(grep -c '^VIOLATION' .work/seed_${id}_$P.out) VIOLATION lines; $(grep '^VIOLATION' .work/seed_${id}_$P.out | head -1 | sed 's/.*obligation=//' | cut -c1-160)"
   echo "$id $line"; res="$res | $line"
 done
-python3 - "$d" "$res" <<'PY'
+python3 - "$d" "$res" "$with" "$without" "$tests" <<'PY'
 import json, sys
-d, res = sys.argv[1:3]
+d, res, w, wo, t = sys.argv[1:6]
 p = d + "/meta.json"
 try:
     m = json.load(open(p))
 except Exception:
     m = {}
-m.setdefault("confirmed_by_me", {})["checks_on_scratch_worktree_latest"] = res
+c = m.setdefault("confirmed_by_me", {})
+if res.strip():
+    c["checks_on_scratch_worktree_latest"] = res
+c.update(demo_with_change=w, demo_without_change=wo, pinned_suite_with_change=t)
 json.dump(m, open(p, "w"), indent=1)
 PY
 git -C /repo worktree remove --force $w
